@@ -44,6 +44,13 @@ Proof.
   - rewrite square_expand. ring.
 Qed.
 
+(* the coefficients are generated definitions (Gen/Gen_Penalty.v): open them before ring *)
+Ltac ug := cbv beta delta [gen_cy_offset gen_cy_lin_binary gen_cy_lin_spin gen_cy_off_spin gen_cy_quad
+                           gen_dqm_offset gen_dqm_lin gen_dqm_quad
+                           gen_py_diag_spin_lin gen_py_diag_spin_off gen_py_diag_binary_lin
+                           gen_py_same_spin_off gen_py_same_binary_lin gen_py_quad gen_py_offset
+                           gen_unb_lin gen_unb_offset gen_unb_mult gen_unb_constant].
+
 Definition bqm_vt (vt : vartype) : Prop := vt = BINARY \/ vt = SPIN.
 
 (* ---------- native back-end ---------- *)
@@ -55,8 +62,8 @@ Lemma energy_eq_lin_step vt lam c p t s :
 Proof.
   intros Hvt Hr. pose proof (Hr (fst t)) as Hv. unfold cvt in Hv.
   destruct Hvt as [-> | ->]; unfold eq_lin_step.
-  - rewrite energy_add_linear. rewrite Hv. ring.
-  - rewrite energy_add_offset, energy_add_linear. rewrite Hv. ring.
+  - rewrite energy_add_linear. rewrite Hv. ug; ring.
+  - rewrite energy_add_offset, energy_add_linear. rewrite Hv. ug; ring.
 Qed.
 
 Lemma energy_eq_lin_pass vt lam c terms : forall p s,
@@ -65,9 +72,9 @@ Lemma energy_eq_lin_pass vt lam c terms : forall p s,
   = energy p s + (lam * two * c * lin_energy terms s + lam * sqsum terms s).
 Proof.
   induction terms as [|t r IH]; intros p s Hvt Hr; cbn [fold_left].
-  - rewrite lin_energy_nil. cbn [sqsum]. ring.
+  - rewrite lin_energy_nil. cbn [sqsum]. ug; ring.
   - rewrite IH by assumption. rewrite energy_eq_lin_step by assumption.
-    rewrite lin_energy_cons. cbn [sqsum]. ring.
+    rewrite lin_energy_cons. cbn [sqsum]. ug; ring.
 Qed.
 
 Lemma energy_eq_quad_row vt lam t r : forall p s,
@@ -76,9 +83,9 @@ Lemma energy_eq_quad_row vt lam t r : forall p s,
   = energy p s + lam * (two * (snd t * s (fst t)) * lin_energy r s).
 Proof.
   unfold eq_quad_row. induction r as [|u r IH]; intros p s Hr; cbn [fold_left].
-  - rewrite lin_energy_nil. ring.
+  - rewrite lin_energy_nil. ug; ring.
   - rewrite IH by assumption. rewrite energy_add_quadratic by assumption.
-    rewrite lin_energy_cons. ring.
+    rewrite lin_energy_cons. ug; ring.
 Qed.
 
 Lemma energy_eq_quad_part vt lam terms : forall p s,
@@ -86,8 +93,8 @@ Lemma energy_eq_quad_part vt lam terms : forall p s,
   energy (eq_quad_part vt lam terms p) s = energy p s + lam * offdiag terms s.
 Proof.
   induction terms as [|t r IH]; intros p s Hr; cbn [eq_quad_part offdiag].
-  - ring.
-  - rewrite IH by assumption. rewrite energy_eq_quad_row by assumption. ring.
+  - ug; ring.
+  - rewrite IH by assumption. rewrite energy_eq_quad_row by assumption. ug; ring.
 Qed.
 
 Theorem add_eq_cy_exact vt terms lam c p s :
@@ -98,7 +105,7 @@ Proof.
   intros Hvt Hr. unfold add_eq_cy, lin_sum.
   rewrite energy_eq_quad_part by assumption.
   rewrite energy_eq_lin_pass by assumption.
-  rewrite energy_add_offset. rewrite penalty_expand. ring.
+  rewrite energy_add_offset. rewrite penalty_expand. ug; ring.
 Qed.
 
 (* ---------- python fallback (positions, repeated labels allowed) ---------- *)
@@ -111,9 +118,9 @@ Proof.
   intros Hvt Hr. unfold py_pair_step. destruct (Nat.eqb_spec (fst t) (fst u)) as [E|E].
   - rewrite <- E. pose proof (Hr (fst t)) as Hv. unfold cvt in Hv.
     destruct Hvt as [-> | ->].
-    + rewrite energy_add_linear. rewrite Hv. ring.
-    + rewrite energy_add_offset. rewrite Hv. ring.
-  - rewrite energy_add_quadratic by assumption. ring.
+    + rewrite energy_add_linear. rewrite Hv. ug; ring.
+    + rewrite energy_add_offset. rewrite Hv. ug; ring.
+  - rewrite energy_add_quadratic by assumption. ug; ring.
 Qed.
 
 Lemma energy_py_diag vt lam c t p s :
@@ -123,8 +130,8 @@ Lemma energy_py_diag vt lam c t p s :
 Proof.
   intros Hvt Hr. pose proof (Hr (fst t)) as Hv. unfold cvt in Hv.
   destruct Hvt as [-> | ->]; unfold py_diag.
-  - rewrite energy_add_linear. rewrite Hv. ring.
-  - rewrite energy_add_offset, energy_add_linear. rewrite Hv. ring.
+  - rewrite energy_add_linear. rewrite Hv. ug; ring.
+  - rewrite energy_add_offset, energy_add_linear. rewrite Hv. ug; ring.
 Qed.
 
 Lemma energy_py_fold vt lam t r : forall p s,
@@ -133,9 +140,9 @@ Lemma energy_py_fold vt lam t r : forall p s,
   = energy p s + lam * (two * (snd t * s (fst t)) * lin_energy r s).
 Proof.
   induction r as [|u r IH]; intros p s Hvt Hr; cbn [fold_left].
-  - rewrite lin_energy_nil. ring.
+  - rewrite lin_energy_nil. ug; ring.
   - rewrite IH by assumption. rewrite energy_py_pair_step by assumption.
-    rewrite lin_energy_cons. ring.
+    rewrite lin_energy_cons. ug; ring.
 Qed.
 
 Lemma energy_py_row vt lam c t r p s :
@@ -146,7 +153,7 @@ Lemma energy_py_row vt lam c t r p s :
     + lam * (two * (snd t * s (fst t)) * lin_energy r s).
 Proof.
   intros Hvt Hr. unfold py_row. rewrite energy_py_fold by assumption.
-  rewrite energy_py_diag by assumption. ring.
+  rewrite energy_py_diag by assumption. ug; ring.
 Qed.
 
 Lemma energy_py_pairs vt lam c terms : forall p s,
@@ -155,9 +162,9 @@ Lemma energy_py_pairs vt lam c terms : forall p s,
   = energy p s + (lam * two * c * lin_energy terms s + lam * sqsum terms s) + lam * offdiag terms s.
 Proof.
   induction terms as [|t r IH]; intros p s Hvt Hr; cbn [py_pairs].
-  - rewrite lin_energy_nil. cbn [sqsum offdiag]. ring.
+  - rewrite lin_energy_nil. cbn [sqsum offdiag]. ug; ring.
   - rewrite IH by assumption. rewrite energy_py_row by assumption.
-    rewrite lin_energy_cons. cbn [sqsum offdiag]. ring.
+    rewrite lin_energy_cons. cbn [sqsum offdiag]. ug; ring.
 Qed.
 
 Theorem add_eq_py_exact vt terms lam c p s :
@@ -167,7 +174,7 @@ Theorem add_eq_py_exact vt terms lam c p s :
 Proof.
   intros Hvt Hr. unfold add_eq_py, lin_sum.
   rewrite energy_add_offset, energy_py_pairs by assumption.
-  rewrite penalty_expand. ring.
+  rewrite penalty_expand. ug; ring.
 Qed.
 
 (* ---------- DQM ---------- *)
@@ -180,8 +187,8 @@ Proof.
   - destruct (fst t <? fst u)%nat.
     + reflexivity.
     + destruct (Nat.eqb_spec (fst t) (fst u)) as [E|E].
-      * rewrite !lin_energy_cons. cbn [fst snd]. rewrite E. ring.
-      * rewrite lin_energy_cons, IH, lin_energy_cons. ring.
+      * rewrite !lin_energy_cons. cbn [fst snd]. rewrite E. ug; ring.
+      * rewrite lin_energy_cons, IH, lin_energy_cons. ug; ring.
 Qed.
 
 Lemma lin_energy_merge_aux terms : forall acc s,
@@ -189,12 +196,12 @@ Lemma lin_energy_merge_aux terms : forall acc s,
   = lin_energy acc s + lin_energy terms s.
 Proof.
   induction terms as [|t r IH]; intros acc s; cbn [fold_left].
-  - rewrite lin_energy_nil. ring.
-  - rewrite IH, lin_energy_ins_term, lin_energy_cons. ring.
+  - rewrite lin_energy_nil. ug; ring.
+  - rewrite IH, lin_energy_ins_term, lin_energy_cons. ug; ring.
 Qed.
 
 Lemma lin_energy_merge terms s : lin_energy (merge_terms terms) s = lin_energy terms s.
-Proof. unfold merge_terms. rewrite lin_energy_merge_aux, lin_energy_nil. ring. Qed.
+Proof. unfold merge_terms. rewrite lin_energy_merge_aux, lin_energy_nil. ug; ring. Qed.
 
 Definition keys_sorted (l : list lterm) : Prop := StronglySorted lt (map fst l).
 
@@ -244,7 +251,7 @@ Lemma energy_dqm_row grp lam t r : forall p s,
   = energy p s + lam * (two * (snd t * s (fst t)) * lin_energy r s).
 Proof.
   unfold dqm_row. induction r as [|u r IH]; intros p s Ho Hni; cbn [fold_left].
-  - rewrite lin_energy_nil. ring.
+  - rewrite lin_energy_nil. ug; ring.
   - cbn [map In] in Hni. rewrite IH by tauto. rewrite lin_energy_cons.
     destruct (Nat.eqb_spec (grp (fst t)) (grp (fst u))) as [E|E].
     + destruct Ho as [_ Hz].
@@ -252,9 +259,9 @@ Proof.
       { apply Hz; [|exact E]. intro X. apply Hni. left. symmetry. exact X. }
       transitivity (energy p s + lam * (two * snd t * snd u * (s (fst t) * s (fst u))
                                         + two * (snd t * s (fst t)) * lin_energy r s)).
-      * rewrite Hp. ring.
-      * ring.
-    + rewrite energy_add_quadratic by (eapply onehot_respects; eassumption). ring.
+      * rewrite Hp. ug; ring.
+      * ug; ring.
+    + rewrite energy_add_quadratic by (eapply onehot_respects; eassumption). ug; ring.
 Qed.
 
 Lemma energy_dqm_terms grp lam c terms : forall p s,
@@ -263,13 +270,13 @@ Lemma energy_dqm_terms grp lam c terms : forall p s,
   = energy p s + (lam * two * c * lin_energy terms s + lam * sqsum terms s) + lam * offdiag terms s.
 Proof.
   induction terms as [|t r IH]; intros p s Ho Hs; cbn [dqm_terms].
-  - rewrite lin_energy_nil. cbn [sqsum offdiag]. ring.
+  - rewrite lin_energy_nil. cbn [sqsum offdiag]. ug; ring.
   - unfold keys_sorted in Hs. cbn [map] in Hs. inversion Hs as [|a b Hb Ha Heq]; subst.
     assert (Hni : ~ In (fst t) (map fst r)).
     { intro X. rewrite Forall_forall in Ha. specialize (Ha _ X). lia. }
     rewrite IH by assumption. rewrite energy_dqm_row by assumption.
     rewrite energy_add_linear. rewrite lin_energy_cons. cbn [sqsum offdiag].
-    destruct Ho as [Hb' _]. rewrite (Hb' (fst t)). ring.
+    destruct Ho as [Hb' _]. rewrite (Hb' (fst t)). ug; ring.
 Qed.
 
 Theorem add_eq_dqm_exact grp terms lam c p s :
@@ -280,7 +287,7 @@ Proof.
   intros Ho. unfold add_eq_dqm, lin_sum.
   rewrite energy_dqm_terms by (try assumption; apply merge_sorted).
   rewrite energy_add_offset. rewrite <- (lin_energy_merge terms s).
-  rewrite penalty_expand. ring.
+  rewrite penalty_expand. ug; ring.
 Qed.
 
 (* ---------- penalization_method='unbalanced' ---------- *)
@@ -290,8 +297,8 @@ Lemma energy_fold_add_linear lam0 terms : forall p s,
   = energy p s + lam0 * lin_energy terms s.
 Proof.
   induction terms as [|t r IH]; intros p s; cbn [fold_left].
-  - rewrite lin_energy_nil. ring.
-  - rewrite IH, energy_add_linear, lin_energy_cons. ring.
+  - rewrite lin_energy_nil. ug; ring.
+  - rewrite IH, energy_add_linear, lin_energy_cons. ug; ring.
 Qed.
 
 Theorem add_unbalanced_exact py vt terms lam0 lam1 ubc p s :
@@ -302,5 +309,5 @@ Theorem add_unbalanced_exact py vt terms lam0 lam1 ubc p s :
 Proof.
   intros Hvt Hr. unfold add_unbalanced.
   destruct py; [rewrite add_eq_py_exact by assumption|rewrite add_eq_cy_exact by assumption];
-    rewrite energy_add_offset, energy_fold_add_linear; unfold lin_sum; ring.
+    rewrite energy_add_offset, energy_fold_add_linear; unfold lin_sum; ug; ring.
 Qed.
